@@ -474,6 +474,18 @@ def cell_signature(cell):
     return {"kind": cell["kind"], "vk": cell["vk"]}
 
 
+# Finding F3 (design_notes/C12.md): in the threaded mailbox processor a gap / overlap in the LAST chunk of
+# the target is detected by the reader only after a lagging saver may already have seen the end of the
+# stream (Mailbox._can_fetch lets the source run one message ahead).  Whether it fires depends on thread
+# timing, so these cells are judged separately and never compared with the (single-thread) model's storage.
+RACE_SIG = {"vk_class": "gap/overlap", "pos": "last", "proc": "threaded_mailbox"}
+
+
+def is_race_cell(cell):
+    return (cell["proc"] == "threaded_mailbox" and cell["vk"] in ("gap", "overlap")
+            and cell["pos"] == cell["n"] - 1)
+
+
 def unit_matrix(ctx):
     cells = matrix_cells(ctx)
     mout = lib.run_model_parallel("C12", [I.enc_cell(c) for c in cells])
@@ -483,6 +495,7 @@ def unit_matrix(ctx):
     n_bad_spec, n_bad_corr = {}, 0
     failing = []
     inconclusive = []
+    n_race = [0, 0]
     for cell, o, mo in zip(cells, obs, mout):
         if _timing_suspect(o) and cell["proc"] == "threaded_mailbox" and "harness_error" not in o:
             # still a mailbox / thread-join time-out after the cell was run again on its own: the
@@ -499,6 +512,15 @@ def unit_matrix(ctx):
             nontriv.add(lib.canon(cell))
         reason = spec_cell(cell, o)
         diff = compare_cell(cell, o, mo)
+        if is_race_cell(cell) and o["result"] == "err":
+            # the exception is there; whether storage was closed before it depends on thread timing (F3)
+            n_race[0] += 1
+            if reason:
+                n_race[1] += 1
+                if n_race[1] == 1:
+                    ctx.violation("matrix_race", "the exception is raised but %s [%s]" % (reason, o.get("exc", "")),
+                                  {"input": RACE_SIG, "cell": cell, "observed": o, "model": mo})
+            continue
         if reason:
             sig = lib.canon(cell_signature(cell))
             n_bad_spec[sig] = n_bad_spec.get(sig, 0) + 1
@@ -523,6 +545,7 @@ def unit_matrix(ctx):
                                                                            n_bad_spec[sig]),
                       {"input": cell_signature(cell), "cell": cell, "observed": o, "model": mo,
                        "replay_note": "bin/check C12 --replay <this file> re-runs the cell on the real strax"})
+    ctx.coverage["matrix_race_cells"] = {"cells": n_race[0], "race_fired": n_race[1]}
     ctx.coverage["matrix_cells_inconclusive_timeouts"] = {"n": len(inconclusive), "first": inconclusive[:5]}
     if len(inconclusive) > max(10, len(cells) // 20):
         ctx.violation("matrix", "%d threaded-mailbox cells ended in mailbox / thread-join time-outs even when run "
@@ -586,6 +609,17 @@ def run(ctx):
 def replay(ctx, obj):
     rp = obj.get("replay", {})
     unit = obj.get("unit")
+    if unit == "matrix_race" and isinstance(rp.get("cell"), dict):
+        # timing dependent: try a number of times (more likely to fire on a loaded machine)
+        os.makedirs(TMP, exist_ok=True)
+        for k in range(60):
+            o = I.run_cell(rp["cell"], os.path.join(TMP, "replay%d" % k))
+            reason = spec_cell(rp["cell"], o)
+            if reason:
+                print("try %d: cell %s -> code %s : %s" % (k, rp["cell"], o.get("code"), reason))
+                return 1
+        print("the race did not fire in 60 tries")
+        return 0
     if unit == "matrix" and isinstance(rp.get("cell"), dict):
         os.makedirs(TMP, exist_ok=True)
         o = I.run_cell(rp["cell"], os.path.join(TMP, "replay"))
